@@ -178,6 +178,11 @@ def verify_function(ctx, c, section, only_prop):
     if spec is None and c.mode != "post":
         section["errors"].append("spec function %s of %s missing in the sidecar" % (c.spec, c.qual))
         return
+    from .normalise import inline_aliases
+    real, anotes = inline_aliases(real)
+    if spec is not None:
+        spec, _ = inline_aliases(spec)
+    section["notes"].extend("%s: %s" % (c.name, n) for n in anotes)
     keys = ("obligations", "errors", "notes")
     mark = {k: len(section[k]) for k in keys}
     ctx.no_closed_form = True
